@@ -271,6 +271,8 @@ static int v_read(const struct cat_variable *var);
 
 static struct cat_io_interface io_if;
 static struct cat_mutex_interface mx_if;
+static void interfere_init(void);
+static void interfere_tick(void);
 
 void world_free(void)
 {
@@ -410,6 +412,7 @@ void world_init(void)
         I.desc->unsolicited_buf_size = W.shared ? 0 : (size_t)W.ubuf_size;
         if (I.nreg > W.buf_size * 4) mcx_fatal("config: too many commands for buffer (outside supported domain)");
         if (W.cap < 6) mcx_fatal("config: capacity %d below supported minimum 6", W.cap);
+        if (W.interfere) interfere_init();
         cat_init(I.obj, I.desc, &io_if, W.use_mutex ? &mx_if : NULL);
         gen_init(&I.S->gen);
         I.S->trig_left = (uint8_t)W.trig_budget;
@@ -677,6 +680,44 @@ static int v_read(const struct cat_variable *var)
 }
 
 /* ------------------------------------------------------------------ */
+/* a second, unrelated parser object (sweeps only): module-level state inside the library that is
+ * shared between parser objects shows up as a disagreement of the first object with the reference */
+
+static struct cat_object B_obj;
+static struct cat_command B_cmds[5];
+static struct cat_command_group B_g0, B_g1, *B_groups[2];
+static struct cat_descriptor B_desc;
+static uint8_t B_buf[16];
+static struct cat_variable B_var;
+static uint8_t B_val;
+static const char B_stream[] = "ATQA\nATQ\nATQE?\nATQC=1\nATQ\rD\r\n";
+static int B_pos;
+static int B_read(char *ch) { *ch = B_stream[B_pos]; B_pos = (B_pos + 1) % (int)(sizeof B_stream - 1); return 1; }
+static int B_write(char ch) { (void)ch; return 1; }
+static cat_return_state B_run(const struct cat_command *c) { (void)c; return CAT_RETURN_STATE_OK; }
+static struct cat_io_interface B_io = {.write = B_write, .read = B_read};
+
+static void interfere_init(void)
+{
+        memset(&B_obj, 0, sizeof B_obj);
+        B_var = (struct cat_variable){.type = CAT_VAR_UINT_DEC, .data = &B_val, .data_size = 1, .access = CAT_VAR_ACCESS_READ_WRITE};
+        static const char *nm[5] = {"QA", "QB", "QC", "QDD", "QE"};
+        for (int i = 0; i < 5; i++) B_cmds[i] = (struct cat_command){.name = nm[i], .run = B_run, .var = (i == 2 || i == 4) ? &B_var : NULL, .var_num = (i == 2 || i == 4) ? 1 : 0};
+        B_g0 = (struct cat_command_group){.cmd = &B_cmds[0], .cmd_num = 2};
+        B_g1 = (struct cat_command_group){.cmd = &B_cmds[2], .cmd_num = 3};
+        B_groups[0] = &B_g0; B_groups[1] = &B_g1;
+        B_desc = (struct cat_descriptor){.cmd_group = B_groups, .cmd_group_num = 2, .buf = B_buf, .buf_size = sizeof B_buf};
+        B_pos = 0; B_val = 0;
+        cat_init(&B_obj, &B_desc, &B_io, NULL);
+}
+
+static void interfere_tick(void)
+{
+        cat_service(&B_obj);
+        (void)cat_search_command_by_name(&B_obj, "QE");
+}
+
+/* ------------------------------------------------------------------ */
 /* API wrappers with mutex oracle                                       */
 
 static void api_enter(void)
@@ -821,6 +862,7 @@ static int do_service(void)
                 half_c = mcx_hash_bytes(I.buf, (size_t)(W.buf_size / 2), 21).a;
                 half_e = mcx_hash_bytes(I.buf + W.buf_size / 2, (size_t)(W.buf_size - W.buf_size / 2), 22).a;
         }
+        if (W.interfere) interfere_tick();
         api_enter();
         mon_service_begin();
         cat_status s = cat_service(I.obj);
